@@ -315,7 +315,10 @@ func TestVF_C18(t *testing.T) {
 					for k := 1; k < n; k++ {
 						for _, before := range []bool{true, false} {
 							h := vfPointHash(sc.Name, via, pr.ms, pr.cycles, dir, k, before, pr.latency, pr.dies)
-							if int(h%uint64(shards)) != shard || (int(h/uint64(shards)%1000003)+seed)%stride != 0 {
+							// the buffer-size probing phase (the first chunks of the first file and their acknowledgements) is never thinned
+							// for the plain 300 ms pause through the API
+							core := via == "api" && pr.ms == 300 && pr.cycles == 1 && pr.latency == 0 && !pr.dies && vfInProbingPhase(dir, k)
+							if int(h%uint64(shards)) != shard || (!core && (int(h/uint64(shards)%1000003)+seed)%stride != 0) {
 								continue
 							}
 							cs := vfC18Case{Scen: sc, Ev: vfEvent{Dir: dir, K: k, Before: before}, PauseMs: pr.ms, Cycles: pr.cycles, Via: via, LatencyMs: pr.latency, PeerDies: pr.dies}
